@@ -230,7 +230,7 @@ func main() {
 }
 
 // genNames: the tool, Lean namespace and tie directory of a generation
-// (1 = tools/ssa2lean, 2 = tools/ssa2lean2, 3 = tools/ssa2lean3, 4 = this tool).
+// (1 = tools/ssa2lean, 2 = tools/ssa2lean2, 3 = tools/ssa2lean3, 4 = tools/ssa2lean4, 6 = this tool).
 func genNames(gen int) (tool, ns, tie string) {
 	switch gen {
 	case 1:
@@ -239,7 +239,6 @@ func genNames(gen int) (tool, ns, tie string) {
 		return "tools/ssa2lean2", "Low.Gen.Ssa2", "LowProofs/Tie2"
 	case 3:
 		return "tools/ssa2lean3", "Low.Gen.Ssa3", "LowProofs/Tie3"
-	}
 	case 4:
 		return "tools/ssa2lean4", "Low.Gen.Ssa4", "LowProofs/Tie4"
 	}
